@@ -338,3 +338,22 @@ Proof.
     { intros t e Hin. apply (Hng t e). exact (sim_step_script c m m1 E _ Hin). }
     destruct (IH horizon m1 Hng1) as [ls2 H2]. exists (ls1 ++ ls2). exact (run_app c ls1 _ _ _ _ H1 H2).
 Qed.
+
+(** fresh-pre-file monitor: in an accepted case nobody obtained the lock more than 100 ms before
+    the pre-made lock file became stale (by Updated, else Created; by its modification time when it
+    is empty or undecodable) - whatever the age of its Created stamp.  Model side: a file that is
+    not stale only makes a waiter sleep ([step] of [LOpenRead] on fresh [FMeta]; for empty files
+    [young_unreadable_file_waited_for]). *)
+Theorem fresh_prefile_respected_sound c tf : fresh_prefile_respected c = true -> pre_free_at c = Some tf ->
+  forall o, In o (cobs c) -> oout o = 0 -> tf - 100000000 <= otime o.
+Proof.
+  unfold fresh_prefile_respected. intros H E o Ho Ha. rewrite E in H. rewrite forallb_forall in H.
+  specialize (H o Ho). rewrite Ha in H. cbn in H. apply negb_true_iff, Z.ltb_ge in H. exact H.
+Qed.
+Theorem fresh_file_makes_a_waiter_sleep c s i cr u w ec : file s = Some i -> content s i = FMeta cr u ->
+  is_stale c (now s) cr u = false -> cs s w = CExists ec ->
+  exists s1 ec', step c s (LOpenRead w) = Some s1 /\ cs s1 w = CSleep ec' (now s + poll c) /\ file s1 = file s.
+Proof.
+  intros Hf Hc Hs Hw. cbn [step]. rewrite Hw, Hf, Hc, Hs. do 2 eexists. split; [reflexivity|].
+  cbn [cs file set_cs]. rewrite upd_eq. auto.
+Qed.
